@@ -73,11 +73,11 @@ func (e *engine) seeds(format string) []Seed { return e.corp.ByFormat[format] }
 // runTotality: the C05 / C06 generator families.
 func (e *engine) runTotality() {
 	r := e.rng
-	nCorpus, nMut, nTrunc, nFault := 150, 60000, 4000, 4000 // per format
+	nCorpus, nMut, nTrunc, nFault := 150, 20000, 2000, 2000 // per format
 	depths := []int{1, 2, 3, 8, 64, 300, 1000}
 	sizes := []int{1 << 10, 64 << 10}
 	if e.thorough {
-		nCorpus, nMut, nTrunc, nFault = 1<<30, 400000, 30000, 30000
+		nCorpus, nMut, nTrunc, nFault = 1<<30, 100000, 10000, 10000
 		depths = []int{1, 2, 3, 8, 64, 300, 1000, 3000, 10000}
 		sizes = []int{1 << 10, 64 << 10, 256 << 10, 1 << 20}
 	}
